@@ -497,6 +497,108 @@ def run_special(case):
                         add("lagrange-backends:%s:constraints<=1e-9" % solver, cres <= 1e-9 * umax, {"worst": cres})
                     except Exception as ex:
                         add("lagrange-backends:%s:runs" % solver, False, {"raised": "%s: %s" % (type(ex).__name__, str(ex)[:200])})
+            elif case["scenario"] == "orphan-nodes":
+                # meshes WITH orphan nodes (coordinates no element uses) on every kind of simulation, incl. the
+                # two-field PhaseField one: finite solution, constraints exact, free residual, orphan dofs regular
+                from EasyFEA.FEM import Mesh
+                from EasyFEA.FEM._group_elem import GroupElemFactory
+
+                def with_orphans(mesh, extra):
+                    coord = np.vstack([mesh.coord, np.asarray(extra, dtype=float)])
+                    return Mesh({et: GroupElemFactory.Create(et, g.connect, coord) for et, g in mesh.dict_groupElem.items()}, verbosity=False)
+                kind, k = case["kind"], case["orphans"]
+                if kind == "phasefield":
+                    mesh, coords = grid_mesh(case["nx"], case["ny"], case["elem"], k)
+                    mat = Models.Elastic.Isotropic(2, E=1.0, v=0.25, planeStress=True, thickness=1.0)
+                    pfm = Models.PhaseField(mat, case["split"], case["regu"], 1.0, 0.5)
+                    simu = Simulations.PhaseField(mesh, pfm, verbosity=False)
+                    left = np.where((coords[:, 0] == 0) & (coords[:, 1] < 15))[0]
+                    right = np.where(coords[:, 0] == case["nx"])[0]
+                    pt = simu.ProblemTypes.elastic
+                    fields = None
+                    for step, ud in enumerate(case["loads"]):
+                        simu.Bc_Init()
+                        simu.add_dirichlet(left, [0, 0], ["x", "y"])
+                        simu.add_dirichlet(right, [ud], ["x"])
+                        if case.get("damage_bc"):
+                            simu.add_dirichlet(left, [0], ["d"], problemType=simu.ProblemTypes.damage)
+                        out = simu.Solve()
+                        u, d = np.asarray(out[0], dtype=float), np.asarray(out[1], dtype=float)
+                        fin = bool(np.all(np.isfinite(u)) and np.all(np.isfinite(d)))
+                        add("orphans:phasefield:step%d:finite" % step, fin, {"nan_u": int(np.sum(~np.isfinite(u))), "nan_d": int(np.sum(~np.isfinite(d)))})
+                        if not fin:
+                            break
+                        orph = np.asarray(simu.mesh.orphanNodes, dtype=int)
+                        add("orphans:phasefield:step%d:orphan-dofs-regular" % step, bool(np.all(d[orph] == 0) and np.all(u.reshape(-1, 2)[orph] == 0)),
+                            {"d_orphan": d[orph].tolist(), "u_orphan": u.reshape(-1, 2)[orph].ravel().tolist()})
+                        add("orphans:phasefield:step%d:constrained-values-exact" % step, bool(np.all(u[2 * right] == ud) and np.all(u[2 * left] == 0) and np.all(u[2 * left + 1] == 0)),
+                            {"ux_right": u[2 * right].tolist()[:4], "expected": ud})
+                        add("orphans:phasefield:step%d:damage-in-[0,1]" % step, bool(d.min() >= -1e-9 and d.max() <= 1 + 1e-9), {"min": float(d.min()), "max": float(d.max())})
+                        K = simu.Get_K_C_M_F(pt)[0]
+                        b = np.asarray(simu._Solver_Apply_Neumann(pt).todense()).ravel()
+                        cons = set(int(x) for x in simu.Bc_dofs_Dirichlet(pt)) | set(int(x) for o in orph for x in (2 * o, 2 * o + 1))
+                        free = np.array([i for i in range(u.size) if i not in cons], dtype=int)
+                        r = K @ u - b
+                        scale = float(np.abs(K).dot(np.abs(u)).max() + np.abs(b).max() + 1e-300)
+                        add("orphans:phasefield:step%d:elastic-free-residual<=1e-10" % step, float(np.abs(r[free]).max()) <= 1e-10 * scale, {"res": float(np.abs(r[free]).max()), "scale": scale})
+                elif kind == "hyperelastic":
+                    pts = [[i, j, kk] for kk in range(2) for j in range(2) for i in range(3)] + [[9.0 + i, 9.0, 9.0] for i in range(k)]
+                    coords = np.array(pts, dtype=float)
+                    idx = lambda i, j, kk: kk * 6 + j * 3 + i
+                    hexa = [[idx(i, 0, 0), idx(i + 1, 0, 0), idx(i + 1, 1, 0), idx(i, 1, 0), idx(i, 0, 1), idx(i + 1, 0, 1), idx(i + 1, 1, 1), idx(i, 1, 1)] for i in range(2)]
+                    from EasyFEA.FEM._utils import ElemType
+                    mesh = Mesh({ElemType.HEXA8: GroupElemFactory.Create(ElemType.HEXA8, np.array(hexa), coords)}, verbosity=False)
+                    simu = Simulations.HyperElastic(mesh, Models.HyperElastic.NeoHookean(3, K=1.0), verbosity=False)
+                    left = np.where(coords[:, 0] == 0)[0]
+                    right = np.where(coords[:, 0] == 2)[0]
+                    simu.add_dirichlet(left, [0, 0, 0], ["x", "y", "z"])
+                    simu.add_dirichlet(right, [case["v1"]], ["x"])
+                    try:
+                        u = np.asarray(simu.Solve(), dtype=float)
+                        orph = np.asarray(simu.mesh.orphanNodes, dtype=int)
+                        add("orphans:hyperelastic:finite", bool(np.all(np.isfinite(u))), {"nan": int(np.sum(~np.isfinite(u)))})
+                        add("orphans:hyperelastic:orphan-dofs-regular", bool(np.all(u.reshape(-1, 3)[orph] == 0)), {"u_orphan": u.reshape(-1, 3)[orph].ravel().tolist()})
+                        add("orphans:hyperelastic:constrained-values-exact", bool(np.all(u[3 * right] == case["v1"]) and np.all(u.reshape(-1, 3)[left] == 0)), {"ux_right": u[3 * right].tolist()})
+                    except Exception as ex:
+                        add("orphans:hyperelastic:finite", False, {"raised": "%s: %s" % (type(ex).__name__, str(ex)[:150])})
+                elif kind == "beam":
+                    from EasyFEA import Mesher
+                    from EasyFEA.Geoms import Domain, Point, Line
+                    L, bb, hh = 8.0, 0.5, 0.5
+                    mesher = Mesher()
+                    section = mesher.Mesh_2D(Domain(Point(-bb / 2, -hh / 2), Point(bb / 2, hh / 2)))
+                    line1 = Line(Point(0, 0), Point(L, 0), L / 4)
+                    lines = [line1] + ([Line(Point(L, 0), Point(L, L), L / 4)] if case.get("connection") else [])
+                    beams = [Models.Beam.Isotropic(2, ln, section, 1024.0, 0.25) for ln in lines]
+                    mesh = with_orphans(mesher.Mesh_Beams(beams, elemType="SEG2"), [[30.0 + i, 30.0, 0.0] for i in range(k)])
+                    simu = Simulations.Beam(mesh, Models.Beam.BeamStructure(beams), verbosity=False)
+                    simu.add_dirichlet(simu.mesh.Nodes_Point(Point(0, 0)), [0, 0, 0], ["x", "y", "rz"])
+                    if case.get("connection"):
+                        simu.add_connection_fixed(simu.mesh.Nodes_Point(Point(L, 0)))
+                        tip = simu.mesh.Nodes_Point(Point(L, L))
+                    else:
+                        tip = simu.mesh.Nodes_Point(Point(L, 0))
+                    simu.add_neumann(tip, [case["F"]], ["y" if not case.get("connection") else "x"])
+                    u = np.asarray(simu.Solve(), dtype=float)
+                    orph = np.asarray(simu.mesh.orphanNodes, dtype=int)
+                    fin = bool(np.all(np.isfinite(u)))
+                    add("orphans:beam:finite", fin and len(orph) == k, {"nan": int(np.sum(~np.isfinite(u))), "orphans": len(orph)})
+                    if fin:
+                        add("orphans:beam:orphan-dofs-regular", bool(np.all(u.reshape(-1, 3)[orph] == 0)), {"u_orphan": u.reshape(-1, 3)[orph].ravel().tolist()})
+                        pt = simu.problemType
+                        dd = simu.Bc_dofs_Dirichlet(pt)
+                        umax = max(1.0, float(np.abs(u).max()))
+                        add("orphans:beam:dirichlet<=1e-10", float(np.abs(u[dd]).max()) <= 1e-10 * umax, {"max": float(np.abs(u[dd]).max())})
+                        worst = max([abs(float(np.dot(bc.lagrangeCoefs, u[bc.dofs]) - bc.dofsValues[0])) for bc in simu.Bc_Lagrange] + [0.0])
+                        add("orphans:beam:connection-constraints<=1e-10", worst <= 1e-10 * umax, {"worst": worst})
+                        n = simu.mesh.Nn * 3
+                        K = simu.Get_K_C_M_F(pt)[0][:n, :n]
+                        b = np.asarray(simu._Solver_Apply_Neumann(pt).todense()).ravel()[:n]
+                        cons = set(int(d) for d in dd) | set(int(d) for bc in simu.Bc_Lagrange for d in bc.dofs) | set(int(3 * o + j) for o in orph for j in range(3))
+                        free = np.array([i for i in range(n) if i not in cons], dtype=int)
+                        r = K @ u - b
+                        scale = float(np.abs(K).dot(np.abs(u)).max() + np.abs(b).max())
+                        add("orphans:beam:free-residual<=1e-9", float(np.abs(r[free]).max()) <= 1e-9 * scale, {"res": float(np.abs(r[free]).max()), "scale": scale})
             elif case["scenario"] == "beam-connection":
                 from EasyFEA import Mesher
                 from EasyFEA.Geoms import Domain, Point, Line
